@@ -194,6 +194,10 @@ val is_bulk : opk -> bool
 
 val is_local : opk -> bool
 
+val is_steal : opk -> bool
+
+val is_own : opk -> bool
+
 val call_ok : int -> opk -> bool
 
 val entry : opk -> pcT
